@@ -207,3 +207,30 @@ def build_rows(headers, layout, data_cell=None, lead_data=True):
 
 def to_text(rows):
     return '\n'.join('\t'.join(r) for r in rows) + '\n'
+
+
+def curated_layouts():
+    """Deep layouts beyond the enumeration depth: nested splits, stepwise and n-way joins, several join
+    groups of one spine on one line, joins next to another spine (up to 5 live columns)."""
+    C = [
+        (('**kern',), [('*^',), ('*^', '*^'), ('*^', '*', '*', '*'), ('*v', '*v', '*', '*v', '*v'), ('*v', '*v', '*v')]),
+        (('**kern',), [('*^',), ('*^', '*^'), ('*v', '*v', '*v', '*v')]),
+        (('**kern',), [('*^',), ('*', '*^'), ('*', '*v', '*v'), ('*v', '*v')]),
+        (('**kern', '**kern'), [('*^', '*'), ('*^', '*', '*'), ('*v', '*v', '*', '*'), ('*v', '*v', '*')]),
+        (('**kern', '**kern'), [('*^', '*'), ('*^', '*', '*'), ('*v', '*v', '*v', '*')]),
+        (('**kern', '**kern'), [('*', '*^'), ('*', '*', '*^'), ('*', '*', '*v', '*v'), ('*', '*v', '*v')]),
+        (('**kern', '**kern'), [('*^', '*^'), ('*v', '*v', '*v', '*v')]),
+        (('**kern', '**kern'), [('*^', '*^'), ('*', '*^', '*', '*'), ('*', '*v', '*v', '*v', '*v')]),
+        (('**kern', '**text'), [('*^', '*'), ('*', '*^', '*'), ('*', '*v', '*v', '*'), ('*v', '*v', '*')]),
+        (('**text', '**kern', '**kern'), [('*', '*^', '*'), ('*', '*^', '*', '*'), ('*', '*v', '*v', '*', '*'), ('*', '*v', '*v', '*')]),
+        (('**kern', '**harm', '**foo'), [('*^', '*', '*'), ('*^', '*', '*', '*'), ('*v', '*v', '*v', '*', '*')]),
+        (('**kern', '**kern', '**harm'), [('*', '*^', '*'), ('*^', '*', '*', '*'), ('*v', '*v', '*v', '*v', '*')]),
+    ]
+    out = []
+    for heads, lay in C:
+        live = list(range(len(heads)))
+        for ops in lay:
+            assert step_ok(live, ops, max_cols=6), (heads, ops)
+            live = apply_ops(live, ops)
+        out.append((heads, tuple(tuple(o) for o in lay)))
+    return out
